@@ -86,6 +86,90 @@ def replay_render(rp, what, panic_only=False):
     return f
 
 
+def ob_sources_attached(run, mir, rp):
+    """Each error is given the text and the path of the file it was raised for."""
+    ob = run.ob("diagnostics-carry-their-file", "E2", "mamba_to_python: in each of the three stages the closure that turns an error into a "
+                "diagnostic calls with_source with Some(source text) and the path of the SAME (source, path) pair the stage was run on; "
+                "unify_type_message puts the message at the child's position and the cause at the parent's",
+                ["mamba_to_python::{closure}s (parse, check, generate)", "unify_type_message"])
+    try:
+        claims, n = [], 0
+        ex = Exec(mir, max_paths=2000)
+        # inner closures: (captures ..., err) -> err.with_source(&Some(src.clone()), &path.clone())
+        inner = [(nme, f) for nme, f in mir.fns.items() if re.match(r"^mamba_to_python::\{closure#\d+\}(::\{closure#\d+\})+$", nme)]
+        for nme, f in inner:
+            st = State()
+            src, path = Opq(z3.Const("src", Val), "String"), Opq(z3.Const("path", Val), "Option<PathBuf>")
+            srcr, pathr = Ref(ex.new_cell(st, src)), Ref(ex.new_cell(st, path))
+            envty = f.args[0][1]
+            env = Agg("closure", envty.lstrip("&").replace("mut ", "").strip(), [srcr, pathr])
+            args = [Ref(ex.new_cell(st, env)) if envty.strip().startswith("&") else env]
+            for an, aty in f.args[1:]:
+                t = aty.strip()
+                args.append(Ref(ex.new_cell(st, Opq(z3.Const(f"err{an}", Val), t.lstrip("&")))) if t.startswith("&") else Opq(z3.Const(f"err{an}", Val), t))
+            try:
+                ends = e2.run_kernel(run, ex, f, args, st)
+            except Unsupported:
+                continue          # a closure with other captures (not a with_source closure)
+            for p in ends:
+                ws = [e_ for e_ in p.events if e_["name"].endswith("with_source")]
+                if not ws:
+                    continue
+                n += 1
+                s_ = p.state
+                a_src = ws[-1]["args"][1]
+                a_src = ex.read_ref(s_, a_src) if isinstance(a_src, Ref) else a_src
+                a_path = ws[-1]["argvals"][2]
+                ok_src = isinstance(a_src, Agg) and a_src.variant == "Some"
+                cl = [z3.BoolVal(ok_src), a_path == ex.to_val(s_, path)]
+                if ok_src:
+                    cl.append(ex.to_val(s_, a_src.fields[0]) == ex.to_val(s_, src))
+                claims.append(z3.Implies(conj(p.cond), conj(cl)))
+        if n < 3:
+            raise Unsupported(f"only {n} with_source sites found")
+        # unify_type_message
+        fn = e2.find1(mir, file="src/check/constrain/unify/ty.rs", name="unify_type_message")
+        st = State()
+        EXP_RS = "src/check/constrain/constraint/expected.rs"
+        mk = lambda tag: e2.mk_struct(EXP_RS, "Expected", {"pos": Opq(z3.Const(tag + ".pos", Val), "Position"), "expect": Opq(z3.Const(tag + ".expect", Val), "Expect"), "an_or_a": z3.Bool(tag + ".an")})
+        sup, child = mk("sup"), mk("child")
+        ends = e2.run_kernel(run, ex, fn, [Opq(z3.Const("prepend", Val), "&str"), Opq(z3.Const("cause_msg", Val), "&str"),
+                                           Ref(ex.new_cell(st, sup)), Ref(ex.new_cell(st, child))], st)
+        fields = e2.rust_struct(EXP_RS, "Expected")
+        for p in ends:
+            if p.kind != "return":
+                continue
+            new = [e_ for e_ in p.events if e_["name"].endswith("TypeErr::new")]
+            wc = [e_ for e_ in p.events if e_["name"].endswith("with_cause")]
+            ok = len(new) == 1 and len(wc) == 1
+            cl = [z3.BoolVal(ok)]
+            if ok:
+                cl += [new[0]["argvals"][0] == ex.to_val(p.state, child.fields[fields.index("pos")]),
+                       wc[0]["argvals"][2] == ex.to_val(p.state, sup.fields[fields.index("pos")]),
+                       wc[0]["argvals"][0] == ex.to_val(p.state, new[0]["ret"])]
+            claims.append(z3.Implies(conj(p.cond), conj(cl)))
+
+        def replay(model):
+            bad = []
+            progs = [("def x: Int := \"s\"", 1), ("def a := 1\ndef x: Int := \"s\"", 2), ("def a := 1\n\nprint(zz)", 3), ("def f(x: Int) -> Int =>\n    x +\n", 2),
+                     ("def s := \"abc", 1), ("def a := 1\ndef b := 2\ndef y: Str := a", 3)]
+            for src, line in progs:
+                stt, out = rp.transpile(src)
+                if stt != "ERR":
+                    bad.append(f"{src!r}: {stt}")
+                    continue
+                quoted = src.split("\n")[line - 1]
+                if f":{line}:" not in out or (quoted.strip() and quoted not in out):
+                    bad.append(f"{src!r}: diagnostic does not show line {line} {quoted!r}: {out[:160]!r}")
+            if bad:
+                return {"reproduced": True, "role": "diagnostic-source", "detail": "; ".join(bad[:2])}
+            return {"reproduced": False, "detail": f"{len(progs)} diagnostics quote their own file's line"}
+        e2.prove(run, ob, ex, [], conj(claims), {}, replay)
+        run.samples.append({"obligation": ob.id, "with_source_sites": n})
+    except Unsupported as e:
+        ob.inconclusive(str(e))
+
+
 def run(run):
     mir = e2.load_mir(run)
     rp = common.Replay()
@@ -277,4 +361,5 @@ def run(run):
         run.validated += n
         if bad:
             run.ob("family-render", "native", "concrete renderings agree with discharged obligations").inconclusive(str(bad[:2]))
+    ob_sources_attached(run, mir, rp)
     rp.close()
